@@ -1,5 +1,6 @@
 import JSL.Driver.Canon
 import JSL.Model.Check
+import JSL.Model.ObsSpace
 import JSL.Model.Compile
 
 /-!
@@ -161,7 +162,7 @@ def printObs (sc : Scen) (res : SMResult) (done : Bool) (st : RewardStatic) : IO
       match currentTransition inst res.state.jobs.length res done with
       | .error e => IO.println s!"VX {e.pyName}"
       | .ok (a, b, c) =>
-        IO.println s!"V jr={listCanon b01 o.jobRunning} jem={joinWith ";" (o.jobExecutedOnMachine.map (listCanon b01))} jp={listCanon toString o.jobProgression} mr={listCanon b01 o.machineRunning} mp={listCanon toString o.machineProgression} av={listCanon b01 o.availableJobs} ct={ratCanon o.currentTime} tr={ratCanon a},{ratCanon b},{ratCanon c}"
+        IO.println s!"V jr={listCanon b01 o.jobRunning} jem={joinWith ";" (o.jobExecutedOnMachine.map (listCanon b01))} jp={listCanon toString o.jobProgression} mr={listCanon b01 o.machineRunning} mp={listCanon toString o.machineProgression} av={listCanon b01 o.availableJobs} ct={ratCanon o.currentTime} tr={ratCanon a},{ratCanon b},{ratCanon c} in={b01 (o.inSpaceB inst.jobs.length inst.machines.length (maxOpsPerJob inst) (maxOpsPerMachine inst))}"
   else
     match opArrayObs inst res.state with
     | .error e => IO.println s!"VX {e.pyName}"
@@ -200,6 +201,8 @@ def command (sc : Scen) (key : String) (v : List Int) : IO Scen := do
       | .ok (env, mic) =>
         IO.println s!"G {b01 (wfB inst)} {b01 (shapeB inst sc.state)} {b01 (conservedB sc.state)} {b01 (capB inst sc.state)} {b01 (restB sc.state)} {b01 (placedB inst sc.state)} {b01 (nonnegB inst)} {b01 (sc.orc.all fun row => row.all fun v => decide (0 ≤ v))} {b01 (detInstB inst)}"
         IO.println s!"L {st.lb} {st.tmax}"
+        if sc.obsKind == 0 then
+          IO.println s!"B {inst.jobs.length} {inst.machines.length} {maxOpsPerJob inst} {maxOpsPerMachine inst} 1"
         for s in mic do IO.println s!"T {s.canon}"
         printRes env.res
         printObs sc env.res false st
